@@ -100,6 +100,8 @@ def _given_as(sh, arr):
     how = sh.get("given")
     if how == ">f4":
         return arr.astype(">f4")
+    if how == "F" and getattr(arr, "ndim", 0) >= 2:
+        return arr.T.copy().T  # same values, column-major memory layout (e.g. np.vstack([x, y, z]).T)
     return arr
 
 
@@ -171,7 +173,7 @@ def build_data3d(I, sh, tag="b"):
         frequency=I.ibv(f"{tag}.freq", "i32"),
         nFrames=n,
         volume=I.farray(f"{tag}.vol", (3,)),
-        rotationMatrix=I.farray(f"{tag}.rot", (3, 3)),
+        rotationMatrix=_given_as(sh, I.farray(f"{tag}.rot", (3, 3))),
         translationVector=I.farray(f"{tag}.tr", (3,)),
         startTime=I.f32(f"{tag}.st"),
         flag=m.Flags(sh.get("flag", 0)),
@@ -214,7 +216,7 @@ def build_force3d(I, sh, tag="b"):
         frequency=I.ibv(f"{tag}.freq", "i32"),
         nFrames=n,
         volume=I.farray(f"{tag}.vol", (3,)),
-        rotationMatrix=I.farray(f"{tag}.rot", (3, 3)),
+        rotationMatrix=_given_as(sh, I.farray(f"{tag}.rot", (3, 3))),
         translationVector=I.farray(f"{tag}.tr", (3,)),
         startTime=I.f32(f"{tag}.st"),
     )
@@ -269,7 +271,11 @@ def build_data2d(I, sh, tag="b"):
     for f in range(nF):
         for c in range(nC):
             k = cells[f][c]
-            if k is not None:
+            if k is not None and sh.get("concrete_points"):
+                # scale instance: many concrete, pairwise different points per cell
+                base = (f * nC + c) * 1000003
+                data[f, c] = np.array([[float((base + 2 * j) % 16777213), float((base + 2 * j + 1) % 16777213)] for j in range(k)], dtype="<f4")
+            elif k is not None:
                 data[f, c] = I.farray(f"{tag}.cell{f}_{c}", (k, 2))
     d.data = data
     d._camMap = [I.ibv(f"{tag}.cam{c}", "u16") for c in range(nC)]
